@@ -8,6 +8,7 @@ mod json;
 mod runner;
 mod sc_model;
 mod scen;
+mod selftest;
 mod stackmat;
 mod world;
 
@@ -78,6 +79,45 @@ fn main() {
                 }
             };
             let code = runner::run_check(check.as_ref(), &Options { root, tier, seed, workers, runs_override: runs });
+            std::process::exit(code);
+        }
+        "selftest" => {
+            let what = args.get(2).map(|s| s.as_str()).unwrap_or("quick");
+            let mut runs = 200u64;
+            let mut workers = 16usize;
+            let mut i = 3;
+            while i < args.len() {
+                match args[i].as_str() {
+                    "--runs" | "--progs" => {
+                        i += 1;
+                        runs = args.get(i).and_then(|s| s.parse().ok()).unwrap_or(runs);
+                    }
+                    "--workers" => {
+                        i += 1;
+                        workers = args.get(i).and_then(|s| s.parse().ok()).unwrap_or(workers);
+                    }
+                    _ => usage(),
+                }
+                i += 1;
+            }
+            let code = match what {
+                "determinism" => selftest::determinism(&all, runs),
+                "digest" => {
+                    selftest::print_digest(&all, runs, workers);
+                    0
+                }
+                "conformance" => selftest::conformance(runs),
+                "quick" => {
+                    let a = selftest::determinism(&all, 60);
+                    let b = selftest::conformance(300);
+                    if a == 0 && b == 0 {
+                        0
+                    } else {
+                        2
+                    }
+                }
+                _ => usage(),
+            };
             std::process::exit(code);
         }
         "replay" => {
